@@ -256,6 +256,21 @@ let do_tf h =
   | TfCrash -> Printf.printf "R %s CRASH\n" id
   | TfUnmodelled -> Printf.printf "R %s unmodelled\n" id
 
+(* ---------------------------------------------------------------- command line *)
+let opt_str h k = match Hashtbl.find_opt h k with None -> None | Some v -> Some (ascii (unhexstr v))
+let do_cli h =
+  let id = get h "id" "" in
+  let args = List.map (fun t -> ascii (unhexstr t)) (split ',' (get h "args" "")) in
+  match main_noninteractive base_checker (opt_str h "script") args (opt_str h "f") (geti h "z" 0 <> 0) with
+  | CliOk out -> Printf.printf "R %s ok out=%s\n" id (hexitem out)
+  | CliFail msg -> Printf.printf "R %s fail msg=%s\n" id (hexitem msg)
+  | CliAbort -> Printf.printf "R %s abort\n" id
+let do_flags h =
+  let id = get h "id" "" in
+  match svf_parse_flags main_initial_flags (ascii (unhexstr (get h "f" ""))) with
+  | None -> Printf.printf "R %s exit1\n" id
+  | Some fl -> Printf.printf "R %s flags=%s names=%s\n" id (string_of_z fl) (String.concat "," (List.map string_of_ascii (svf_names fl)))
+
 let run_case (l : string) =
   let (kind, h) = parse_line l in
   match kind with
@@ -267,6 +282,8 @@ let run_case (l : string) =
   | "tx" -> do_tx h
   | "inl" -> do_inl h
   | "tf" -> do_tf h
+  | "cli" -> do_cli h
+  | "flags" -> do_flags h
   | _ -> Printf.printf "R %s unknownkind\n" (get h "id" "")
 
 let () =
